@@ -42,3 +42,12 @@ Definition CFiringScript_update_firings (self_graph_vertices : list nat) (self_s
   match CFiringScript_get_firings self_graph_vertices self_script vertex_name with PyExn _ => PyExn self_script | PyOk current_firings =>
   match CFiringScript_set_firings self_graph_vertices self_script vertex_name (current_firings + additional_firings) with PyExn self_script => PyExn self_script | PyOk self_script =>
   PyOk self_script end end.
+
+(* chipfiring/CFiringScript.py :: CFiringScript.script   reads ['self_graph_vertices', 'self_script'], writes [], may raise *)
+Definition CFiringScript_script (self_graph_vertices : list nat) (self_script : dictZ) (set_order : list nat -> list nat) : pyres (unit) dictZ :=
+  let to_return := (@nil (nat * Z)) in
+  match fold_left (fun acc_ vertex => match acc_ with PyExn e_ => PyExn e_ | PyOk to_return => 
+  match CFiringScript_get_firings self_graph_vertices self_script vertex with PyExn _ => PyExn tt | PyOk t1_ =>
+  let to_return := d_set vertex t1_ to_return in
+  PyOk to_return end end) (set_order self_graph_vertices) (PyOk to_return) with PyExn e_ => PyExn e_ | PyOk to_return =>
+  PyOk (to_return) end.
